@@ -238,6 +238,27 @@ def require_tlc_ok(r, what):
         raise ToolError(f"TLC did not complete cleanly for {what} (timeout={r.get('timeout')}):\n{r['out'][-3000:]}")
 
 
+BIG_WINDOWS = [2147483, 4294967, 9007199254740, 9223372036854775, 18446744073709551]     # SchemaDesc.tla BigPrefix
+
+
+def tlc_size(n):
+    """a fixed `size` as the specification holds it: itself, or (beyond TLC's 32-bit integers) minus (window index * 1000 + last three digits)"""
+    if not isinstance(n, int) or isinstance(n, bool) or n < 2_000_000_000:
+        return n
+    if n // 1000 not in BIG_WINDOWS:
+        raise ToolError(f"size {n} is outside the windows of big numbers the specification can name")
+    return -((BIG_WINDOWS.index(n // 1000) + 1) * 1000 + n % 1000)
+
+
+def tlc_sizes(x):
+    """events on their way to TLC: every "size" member translated with tlc_size"""
+    if isinstance(x, dict):
+        return {k: (tlc_size(v) if k == "size" else tlc_sizes(v)) for k, v in x.items()}
+    if isinstance(x, list):
+        return [tlc_sizes(v) for v in x]
+    return x
+
+
 def validate_trace(module, cfg, events, env=None, timeout=600, xmx="2g", tag=None):
     """Trace validation: write events as ndjson, run the trace spec (which reads IOEnv.VERIF_TRACE) with one
     worker and the depth-first queue. Returns dict(ok, accepted, first_unmatched (1-based index or None),
@@ -248,7 +269,7 @@ def validate_trace(module, cfg, events, env=None, timeout=600, xmx="2g", tag=Non
     path = os.path.join(d, tag + ".ndjson")
     with open(path, "w") as f:
         for ev in events:
-            f.write(json.dumps(ev, separators=(",", ":")) + "\n")
+            f.write(json.dumps(tlc_sizes(ev), separators=(",", ":")) + "\n")
     e = dict(env or {})
     e["VERIF_TRACE"] = path
     r = run_tlc(module, cfg, env=e, workers=1, timeout=timeout, xmx=xmx, deque=True, tag=tag)
